@@ -622,7 +622,7 @@ def shard(cfg):
         check_e2e(sel, xs, ys, p0, ov, rec)
 
     n, v, herr = hyp_search(e2e_strategy(), body, seed=cfg["seed"] * 1000 + cfg["shard"],
-                            max_examples=cfg["examples"])
+                            max_examples=cfg["examples"], case_cpu_s=30.0)
     res = rec.result()
     if v is not None:
         sel, xs, ys, p0, ov = v.case
